@@ -47,6 +47,11 @@ TARGETS = [
           line_id="int", width="int", max_distance="num", line_proximity="f1", nearest_xs="i1",
           nearest_ys="i1", values="f1", distance_metric="int")),
     ("convolve2d", "xrspatial/convolution.py", "_convolve_2d_numpy", dict(data="f2", kernel="f2")),
+    # the jitted closure of proximity._process; its free variables are declared after the parameters
+    ("processNumpy", "xrspatial/proximity.py", "_process._process_numpy",
+     dict(img="f2", x_coords="f2", y_coords="f2", target_values="f1", max_distance="num", distance_metric="int",
+          process_mode="int")),
+    ("calcDirection", "xrspatial/proximity.py", "_calc_direction", dict(x1="num", x2="num", y1="num", y2="num")),
 ]
 
 # functions that stay calls: name -> (number of numeric args, number of trailing integer args)
@@ -101,6 +106,16 @@ class Module:
                 if v is not None:
                     self.consts[n.targets[0].id] = v
 
+    def find(self, path):
+        """`outer.inner`: a function defined inside another one"""
+        parts = path.split(".")
+        f = self.funcs.get(parts[0])
+        for part in parts[1:]:
+            if f is None:
+                return None
+            f = next((n for n in ast.walk(f) if isinstance(n, ast.FunctionDef) and n.name == part and n is not f), None)
+        return f
+
     def jitted(self, name):
         f = self.funcs.get(name)
         if f is None:
@@ -146,6 +161,14 @@ class Fn:
         for p in self.params:
             if p not in self.types:
                 raise Untranslatable(f"no sort declared for parameter {p}")
+        # names declared beyond the parameters are closure variables: they must be free in the function
+        bound = set(self.params)
+        for n in ast.walk(func):
+            if isinstance(n, ast.Name) and isinstance(n.ctx, ast.Store):
+                bound.add(n.id)
+        for p in self.types:
+            if p not in self.params and p in bound:
+                raise Untranslatable(f"declared closure variable {p} is bound inside the function")
         self.infer()
 
     # ---------------------------------------------------------------- names
@@ -319,7 +342,8 @@ class Fn:
                 return self.sort(e.args[0])
             if fn in ("np.isnan", "np.isfinite", "np.isinf"):
                 return "bool"
-            if fn in ("np.sqrt", "sqrt", "math.sqrt", "np.float32", "np.float64", "float"):
+            if fn in ("np.sqrt", "sqrt", "math.sqrt", "np.float32", "np.float64", "float", "np.arctan2", "np.arctan",
+                      "np.sin", "np.cos", "np.exp", "np.arcsin"):
                 return "num"
             if fn in ("np.sum",) and len(e.args) == 1 and isinstance(e.args[0], ast.Name) \
                     and self.types.get(e.args[0].id) in ("i1", "i2"):
@@ -528,6 +552,11 @@ class Fn:
                 return f"(.un .sqrt {self.fe(e.args[0])})"
             if fn in ("abs", "np.abs"):
                 return f"(.un .abs {self.fe(e.args[0])})"
+            if fn == "np.arctan2" and len(e.args) == 2:
+                return f"(.bin .atan2 {self.fe(e.args[0])} {self.fe(e.args[1])})"
+            if fn in ("np.arctan", "np.sin", "np.cos", "np.exp", "np.arcsin") and len(e.args) == 1:
+                op = {"np.arctan": "atan", "np.sin": "sin", "np.cos": "cos", "np.exp": "exp", "np.arcsin": "asin"}[fn]
+                return f"(.un .{op} {self.fe(e.args[0])})"
             if fn in ("np.float32", "np.float64", "float"):
                 self.report["casts"].append(src(e)[:60])
                 return self.fe(e.args[0])
@@ -712,7 +741,9 @@ class Fn:
                 if not isinstance(v, ast.Name):
                     raise Untranslatable("returned array expression " + src(v))
                 self.ret_arrays = getattr(self, "ret_arrays", {})
-                self.ret_arrays[k] = self.arr(v.id)
+                self.ret_arrays.setdefault(k, [])
+                if self.arr(v.id) not in self.ret_arrays[k]:
+                    self.ret_arrays[k].append(self.arr(v.id))
                 continue
             # a variable declared numeric by another return keeps that sort
             rty = self.ret_types[k]
@@ -900,17 +931,20 @@ def translate(mods, repo, lean_name, rel, fname, ptypes):
         if rel not in mods:
             mods[rel] = Module(repo, rel)
         mod = mods[rel]
-        func = mod.funcs.get(fname)
+        func = mod.find(fname)
         if func is None:
             raise Untranslatable("function not found")
-        if [a.arg for a in func.args.args] != list(ptypes):
-            raise Untranslatable(f"parameters are {[a.arg for a in func.args.args]}, declared {list(ptypes)}")
+        real_params = [a.arg for a in func.args.args]
+        if real_params != list(ptypes)[:len(real_params)]:
+            raise Untranslatable(f"parameters are {real_params}, declared {list(ptypes)}")
         fn = Fn(mod, func, ptypes)
         body = fn.block(body_of(func))
         rets = []
         for k, ty in enumerate(fn.ret_types or []):
             if ty in ARR:
-                rets.append((fn.ret_arrays[k], ty))
+                # different `return` statements may return different arrays: all of them are results
+                for nm in fn.ret_arrays[k]:
+                    rets.append((nm, ty))
             else:
                 rets.append((f"ret{k}", ty))
         params = ", ".join(f"({lstr(p)}, {TY_LEAN[t]})" for p, t in ptypes.items())
